@@ -3,6 +3,7 @@
 mod util;
 mod refm;
 mod gen;
+mod bm;
 mod findings;
 mod mon;
 
